@@ -834,7 +834,7 @@ def explore_scenario(sc: Scenario, jobs: int, max_exec_per_worker=None, split_ta
     """Exhaustively explore `sc`; returns merged stats, violation records, outcome classes, completed flag."""
     from .runner import pmap
 
-    split_target = split_target or jobs * 6
+    split_target = split_target or jobs * 40
     stats = dict(executions=0, states=0, transitions=0, pruned=0, violations=0)
     found, classes = [], {}
     completed = True
